@@ -1,0 +1,10 @@
+//go:build verif
+
+package scheduler
+
+// Contracts read by the verification engine in /verif (govc). Comment-only file.
+//
+//@ func CheckNodeFitness
+//@   pure
+//@   trusted
+//@   reads nothing
